@@ -374,9 +374,12 @@ func main() {
 		}
 		code := runReplay(w, tmp, id, final, nil)
 		carried := false
-		if code == 0 && !v.hb {
-			// the run alone is clean: repeat it after the runs its worker had executed before it in the same process. Every
-			// run builds its routers afresh, so only memory the system under test keeps per process can carry over.
+		if (code == 0 || code == 2) && !v.hb {
+			// the run alone is clean (or, replayed from its minimised choices, takes another path than recorded): repeat it
+			// after the runs its worker had executed before it in the same process. Every run builds its routers afresh, so
+			// only memory the system under test keeps per process (package-level pools and caches) can carry over. Only a
+			// carried replay that shows the violation again counts; otherwise the first exit code is reported as trouble.
+			first := code
 			if b, err := os.ReadFile(final); err == nil {
 				var m map[string]any
 				if json.Unmarshal(b, &m) == nil {
@@ -384,6 +387,8 @@ func main() {
 					if nb, err := json.MarshalIndent(m, "", " "); err == nil && os.WriteFile(final, nb, 0o644) == nil {
 						if code = runReplay(w, tmp, id, final, nil); code == 1 {
 							carried = true
+						} else if first != 0 {
+							code = first
 						}
 					}
 				}
